@@ -55,6 +55,8 @@ func lenenc(b *fb, name string, s []byte) {
 
 const (
 	myCapLongPassword = 0x1
+	myCapLongFlag     = 0x4
+	myCapLocalFiles   = 0x80
 	myCapProtocol41   = 0x200
 	myCapTransactions = 0x2000
 	myCapSecureConn   = 0x8000
@@ -63,7 +65,9 @@ const (
 
 func myHandshakeResponse(b *fb) {
 	myPkt(b, "HandshakeResponse", 1, func(b *fb) {
-		b.num("HandshakeResponse.capabilities", 4, myCapLongPassword|myCapProtocol41|myCapTransactions|myCapSecureConn|myCapPluginAuth)
+		// the low byte must not look like a command: Handler.ProxyClientConnection also runs its
+		// command switch on the first packet (0x01 = COM_QUIT would close the session)
+		b.num("HandshakeResponse.capabilities", 4, myCapLongPassword|myCapLongFlag|myCapLocalFiles|myCapProtocol41|myCapTransactions|myCapSecureConn|myCapPluginAuth)
 		b.num("HandshakeResponse.maxpacket", 4, 1<<24)
 		b.num("HandshakeResponse.charset", 1, 33)
 		b.bytes(make([]byte, 23))
